@@ -7,7 +7,7 @@
 //! second bank is identified by value.
 //! Observed: emulated OUT (C),A / LD (nn),A / LD A,(nn) / LDIR on the full machine, `peek()`, and a
 //! periodic full sweep of all 65536 addresses and all RAM pages (hook) against the shadow.
-use crate::host::{Cfg, Machine, VecRomSet};
+use crate::host::{Cfg, Machine, ShortRomSet, VecRomSet};
 use crate::json::J;
 use crate::report::{par_map, repo_root, Ctx, Evidence};
 use crate::rng::{mix2, Rng};
@@ -93,7 +93,13 @@ fn setup(is128: bool, host_rom: bool, full_fill: bool, emb: &[Vec<Vec<u8>>; 2]) 
     let npages = if is128 { 2 } else { 1 };
     let rom: Vec<Vec<u8>> = if host_rom {
         let pages: Vec<Vec<u8>> = (0..npages).map(|p| (0..16384).map(|o| rom_marker(p, o)).collect()).collect();
-        m.emu.load_rom(VecRomSet { pages: pages.clone(), next: 0 }).expect("load_rom");
+        // the host may deliver the image in one read or in pieces (a read may return fewer bytes)
+        static TURN: std::sync::atomic::AtomicUsize = std::sync::atomic::AtomicUsize::new(0);
+        let t = TURN.fetch_add(1, std::sync::atomic::Ordering::Relaxed);
+        match t % 4 {
+            0 => m.emu.load_rom(VecRomSet { pages: pages.clone(), next: 0 }).expect("load_rom"),
+            k => m.emu.load_rom(ShortRomSet { pages: pages.clone(), next: 0, chunk: [1000, 4096, 1][k - 1] }).expect("load_rom (short reads)"),
+        }
         pages
     } else {
         emb[is128 as usize].clone()
